@@ -1,6 +1,6 @@
 (* C07 — the validation report is exact. Only statements; proofs in Gen/GenProofs*.v, Gen/GenExact.v. *)
 From GV Require Import Base.Bytes Base.GoFloat GoLite.Syntax GoLite.Sem.
-From GV Require Import Gen.Decl Gen.Rules Gen.Template Gen.Spec Gen.Guard Gen.GenProofs1 Gen.GenProofs2 Gen.GenProofs3 Gen.GenExact Gen.Harness.
+From GV Require Import Gen.Decl Gen.Rules Gen.Template Gen.Spec Gen.Guard Gen.GenProofs1 Gen.Typed Gen.GenProofs2 Gen.GenProofs3 Gen.GenExact Gen.Harness.
 
 (* For every declaration outside the known-finding classes (in_guard, a decidable predicate that is evaluated
    on every corpus declaration at run time) and every well-typed receiver value: the generated
@@ -18,6 +18,21 @@ Theorem C07_report_exact : forall ipc tab d f root,
    s_gw (o_st o) = [] /\ s_allocs (o_st o) = 2 * length (expected ipc tab d root)).
 Proof. exact gen_exact. Qed.
 Print Assumptions C07_report_exact.
+
+(* The same without the "ill-typed" alternative: when, in addition, every marker parameter of the declaration is in the
+   documented language (params_ok: a decidable predicate - numeric rules carry a numeric literal that is an integer for
+   integer fields, not on complex fields; length and item rules carry an integer literal; enum items of numeric fields are
+   numeric literals; no enum on non-basic types; CEL rules are the subject of C10), the generated code is well-typed and
+   returns exactly the expected report. *)
+Theorem C07_report_exact_typed : forall ipc tab d f root,
+  in_guard tab d = true -> params_ok tab d = true -> gen_file tab d = Some f -> wt_struct d root ->
+  let o := exec_file ipc background f (Some root) in
+  o_res o <> RStuck /\
+  report_of (o_res o) = Some (map projw (expected ipc tab d root)) /\
+  (o_res o = RNil <-> expected ipc tab d root = []) /\
+  s_gw (o_st o) = [] /\ s_allocs (o_st o) = 2 * length (expected ipc tab d root).
+Proof. exact gen_exact_typed. Qed.
+Print Assumptions C07_report_exact_typed.
 
 Theorem C07_nil_receiver : forall ipc tab d f ctx, gen_file tab d = Some f ->
   o_res (exec_file ipc ctx f None) = RErr (bs "ErrNil" ++ sd_name d) /\ s_calls (o_st (exec_file ipc ctx f None)) = 0.
@@ -75,8 +90,8 @@ Definition ex_tab : numtab := [(bs "3", {| nl_int := Some 3%Z; nl_f32 := 1077936
 Definition ex_value : value :=
   VStruct [(bs "Name", VStr []); (bs "Nick", VStr (bs "toolong")); (bs "Addr", VStruct [(bs "Zip", VStr (bs "123"))])].
 
-Example C07_guard_inhabited : in_guard ex_tab ex_decl = true.
-Proof. vm_compute. reflexivity. Qed.
+Example C07_guard_inhabited : in_guard ex_tab ex_decl = true /\ params_ok ex_tab ex_decl = true.
+Proof. vm_compute. auto. Qed.
 Example C07_example :
   map projw (expected (fun _ => NotIP) ex_tab ex_decl ex_value) =
   [(bs "User.Name", bs "required", Some (VStr [])); (bs "User.Nick", bs "maxlength", Some (VStr (bs "toolong")))].
